@@ -114,8 +114,30 @@ func signUnit(ki int) harness.Unit {
 					st := &stream{data: append(append([]byte{}, nc.bytes...), pu.Msg(9, 80)...), perRead: nc.perRead}
 					var r, s *big.Int
 					var err error
-					if c.Guard("sign-panic:"+key.Name, "Sm2Sign "+tag, nil, func() { r, s, err = sm2.Sm2Sign(priv, msg, u.id, st) }) {
+					// message and identity are handed over as slices with spare capacity behind them, in
+					// guarded buffers of their own, and once more as adjacent parts of ONE buffer (ID || M, the
+					// layout of a packet): nothing may be written to either
+					mc, uc := pu.NewCanary(msg, 48), pu.NewCanary(u.id, 80)
+					mArg, uArg := mc.Slice(), uc.Slice()
+					if u.id == nil {
+						uArg = nil
+					}
+					var packet []byte
+					if nc.name == nonces()[0].name && u.id != nil {
+						packet = append(append([]byte{}, u.id...), msg...)
+						uArg, mArg = packet[:len(u.id)], packet[len(u.id):]
+					}
+					if c.Guard("sign-panic:"+key.Name, "Sm2Sign "+tag, nil, func() { r, s, err = sm2.Sm2Sign(priv, mArg, uArg, st) }) {
 						continue
+					}
+					if why := mc.Check(); why != "" {
+						c.Violate("sign-writes-message:"+key.Name, fmt.Sprintf("[%s] Sm2Sign wrote to the caller's message buffer: %s", tag, why), nil, nil)
+					}
+					if why := uc.Check(); why != "" {
+						c.Violate("sign-writes-id:"+key.Name, fmt.Sprintf("[%s] Sm2Sign wrote to the caller's identity buffer: %s", tag, why), nil, nil)
+					}
+					if packet != nil && !bytes.Equal(packet, append(append([]byte{}, u.id...), msg...)) {
+						c.Violate("sign-writes-packet:"+key.Name, fmt.Sprintf("[%s] identity and message passed as adjacent parts of one buffer: Sm2Sign changed the buffer", tag), nil, nil)
 					}
 					if err != nil {
 						c.Violate(fmt.Sprintf("sign-error:%s:id=%s", key.Name, u.name), fmt.Sprintf("[%s] Sm2Sign failed: %v", tag, err), nil, nil)
@@ -129,6 +151,13 @@ func signUnit(ki int) harness.Unit {
 					}
 					if !sm2.Sm2Verify(&priv.PublicKey, msg, u.id, wr, ws) {
 						c.Violate(fmt.Sprintf("verify-rejects-valid:%s:id=%s", key.Name, u.name), fmt.Sprintf("[%s] Sm2Verify rejects the standard's signature", tag), nil, nil)
+					}
+					if u.id != nil {
+						pk := append(append([]byte{}, u.id...), msg...)
+						ok := sm2.Sm2Verify(&priv.PublicKey, pk[len(u.id):], pk[:len(u.id)], wr, ws)
+						if !ok || !bytes.Equal(pk, append(append([]byte{}, u.id...), msg...)) {
+							c.Violate(fmt.Sprintf("verify-packet-layout:%s:id=%s", key.Name, u.name), fmt.Sprintf("[%s] identity and message passed as adjacent parts of one buffer: Sm2Verify = %v, buffer changed = %v", tag, ok, !bytes.Equal(pk, append(append([]byte{}, u.id...), msg...))), nil, nil)
+						}
 					}
 					if !sm2.Verify(&priv.PublicKey, e.Bytes(), wr, ws) {
 						c.Violate(fmt.Sprintf("verify-hash-rejects-valid:%s", key.Name), fmt.Sprintf("[%s] sm2.Verify(hash) rejects the standard's signature", tag), nil, nil)
